@@ -101,14 +101,14 @@ example : (simplify simplifyExcluded fstringMarkers true (parseStr "a\\nb".toLis
 /-! ### `files([...])` flattening -/
 
 /-- when one turn of the rewrite applies, the call was `files(<one array, no keywords>)`, none of the whitespace
-nodes that disappear (brackets, array, outer argument list, outer commas) holds anything but blanks, and the new
+nodes that disappear (brackets, array, outer argument list, outer commas) holds a comment, and the new
 call has exactly the array's argument-list node as its argument list -/
 theorem files_flatten_same_args (t t' : Tree) (h : flattenStep t = some t') :
     ∃ fl tx nm lp afl atx akids aws rp ws k1 k2 lb inner rb k3,
       t = .node .func fl tx [nm, lp, .node .args afl atx akids aws, rp] ws ∧
       positional akids = [.node .array k1 k2 [lb, inner, rb] k3] ∧ (keywords akids).isEmpty = true ∧
-      (blankWs lb = true ∧ blankWs rb = true ∧ (MesonModel.Py.strip k3).isEmpty = true ∧
-        (MesonModel.Py.strip aws).isEmpty = true ∧ (commasOf akids).all blankWs = true) ∧
+      (blankWs lb = true ∧ blankWs rb = true ∧ noComment k3 = true ∧
+        noComment aws = true ∧ (commasOf akids).all blankWs = true) ∧
       t' = .node .func fl tx [nm, lp, inner, rp] ws := by
   unfold flattenStep at h
   split at h
@@ -130,34 +130,19 @@ theorem files_flatten_same_args (t t' : Tree) (h : flattenStep t = some t') :
     · simp at h
   · simp at h
 
-theorem mem_hash_dropWhile_isSpace (m : List Char) (h : '#' ∈ m) : '#' ∈ m.dropWhile MesonModel.Py.isSpace := by
-  induction m with
-  | nil => simp at h
+/-- a whitespace value that passes the guard of the rewrite holds no comment: dropping it loses none
+(`commentsOf` finds a comment only at a `#`) -/
+theorem commentsOfAux_no_hash (w : List Char) (hm : '#' ∉ w) : commentsOfAux w none = [] := by
+  induction w with
+  | nil => rfl
   | cons c rest ih =>
-    simp only [List.dropWhile_cons]
-    split
-    · rename_i hc
-      have hne : c ≠ '#' := by intro e; subst e; revert hc; decide
-      have : '#' ∈ rest := by
-        rcases List.mem_cons.mp h with e | e
-        · exact absurd e.symm hne
-        · exact e
-      exact ih this
-    · exact h
+    have hc : c ≠ '#' := fun e => hm (by simp [e])
+    have hr : '#' ∉ rest := fun m => hm (List.mem_cons_of_mem _ m)
+    simp only [commentsOfAux, hc, if_false]
+    exact ih hr
 
-/-- a whitespace value that is blank after `strip()` holds no comment: the guard of the rewrite is what keeps
-comments from being deleted -/
-theorem blank_has_no_comment (w : List Char) (h : (MesonModel.Py.strip w).isEmpty = true) : '#' ∉ w := by
-  intro hm
-  have hs : MesonModel.Py.strip w = [] := by simpa using h
-  have h1 : '#' ∈ MesonModel.Py.lstrip w := mem_hash_dropWhile_isSpace w hm
-  have h2 : '#' ∈ MesonModel.Py.rstrip (MesonModel.Py.lstrip w) := by
-    unfold MesonModel.Py.rstrip
-    have := mem_hash_dropWhile_isSpace (MesonModel.Py.lstrip w).reverse (by simpa using h1)
-    simpa using this
-  unfold MesonModel.Py.strip at hs
-  rw [hs] at h2
-  simp at h2
+theorem noComment_commentsOf (w : List Char) (h : noComment w = true) : commentsOf w = [] :=
+  commentsOfAux_no_hash w (by simpa [noComment] using h)
 
 /-- flattening does not change the erased program beyond replacing the one-array argument list by the
 array's own argument list: the function name and everything outside the call are untouched -/
